@@ -42,6 +42,15 @@ def load_known(pid):
     return [e for e in data.get("findings", []) if e.get("property") == pid]
 
 
+def _reset_signals():
+    # importing pkgcore.ebuild.processor installs SIGTERM/SIGINT handlers that raise; pool workers
+    # forked afterwards would survive Pool.terminate() and the run would never exit
+    import signal
+
+    signal.signal(signal.SIGTERM, signal.SIG_DFL)
+    signal.signal(signal.SIGINT, signal.SIG_DFL)
+
+
 def _worker(args):
     pid, tier, seed, shard, nshards, deadline, task = args
     mod = load_module(pid)
@@ -188,7 +197,7 @@ def main(argv=None):
         results = [_worker(x) for x in args]
     else:
         mp = multiprocessing.get_context("fork")
-        with mp.Pool(jobs, maxtasksperchild=1) as pool:
+        with mp.Pool(jobs, maxtasksperchild=1, initializer=_reset_signals) as pool:
             for r in pool.imap_unordered(_worker, args, chunksize=1):
                 results.append(r)
     errs = [r for r in results if "error" in r]
